@@ -22,8 +22,11 @@ func init() {
 			ruleMultiStream(c, r, "")
 			ruleXZReaderChecks(c, r, "")
 			ruleRawEOFFlag(c, r, "")
-			ruleReadAdvance(c, r, "")
+			ruleLoopAdvanceExact(c, r, "")
 			ruleBlockReadOnlySize(c, r, "")
+			ruleSameSource(c, r, "")
+			ruleNilOnErr(c, r, "")
+			ruleDecoderBounds(c, r, "")
 			ruleCounting(c, r, "", "read")
 			ruleDecoderReadErr(c, r, "")
 			ruleReadInvokes(c, r, "")
